@@ -364,7 +364,11 @@ def _startup_case(detach, relroot, cwdname):
     conf = os.path.join(base, "pygopherd.conf")
     with open(conf, "w") as f:
         c.write(f)
-    old = {"cwd": os.getcwd(), "fork": os.fork, "setpgrp": os.setpgrp, "log": logger.log}
+    import signal
+
+    # (initialize() installs the daemon's SIGHUP/SIGTERM handlers, which take the whole process group down:
+    #  they must not outlive this case inside a check process)
+    old = {"cwd": os.getcwd(), "fork": os.fork, "setpgrp": os.setpgrp, "log": logger.log, "hup": signal.getsignal(signal.SIGHUP), "term": signal.getsignal(signal.SIGTERM)}
     bad = []
     server = None
     try:
@@ -389,6 +393,8 @@ def _startup_case(detach, relroot, cwdname):
                 bad.append(("outside-root", "detach=%s root=%r: serving %s touched %r" % (detach, rootopt, sel, outs[:2])))
     finally:
         os.fork, os.setpgrp = old["fork"], old["setpgrp"]
+        signal.signal(signal.SIGHUP, old["hup"] if old["hup"] is not None else signal.SIG_DFL)
+        signal.signal(signal.SIGTERM, old["term"] if old["term"] is not None else signal.SIG_DFL)
         logger.log = old["log"]
         os.chdir(old["cwd"])
         if server is not None:
